@@ -73,7 +73,7 @@ def main(tier):
     _cw()
     return run.finish(
         rule="E2 (same transition system as C14, plus set_sys_phases / set_comp_phases incl. malformed arguments: non-dict/list, a single phase, 'N/A', {} , unknown component, loss "
-             "component, rail-valued target): depth <= %d, deviation budget <= %d from 8 seeds%s. For EVERY rejected call: K_full before == after, component objects identical, and 8 reports "
+             "component, rail-valued target): depth <= %d, deviation budget <= %d from 10 seeds%s. For EVERY rejected call: K_full before == after, component objects identical, and 8 reports "
              "(solve, rail_rep, params(limits), limits, phases, tree, save document, make_diag DOT graph) equal to the predecessor's. evaluations = transitions explored, distinct_nontrivial = rejected transitions checked." % (
                  D, B, "" if tier == "quick" else "; plus depth 4, budget 1 from 3 seeds with the white-box comparison only"),
         states=st["states"], transitions=st["transitions"], traces=st["rejected"],
